@@ -83,6 +83,13 @@ def cases(rng, tier):
 		for _ in range(npairs):
 			name = unicode_text(rng, rng.choice((1, 1, 2, 5)), special=u'&=+% ;#?/')
 			value = unicode_text(rng, rng.choice((0, 1, 2, 6)), special=u'&=+% ;#?/')
+			if rng.random() < 0.06:
+				# characters a lenient codec might drop or fold: byte order mark, non-characters, combining marks
+				odd = rng.choice((u'\ufeff', u'\ufffe', u'e\u0301', u'\u212b', u'\u00ad', u'\u200b'))
+				if rng.random() < 0.5:
+					name = odd + name
+				else:
+					value = odd + value
 			pairs.append((name, value))
 		cs = rng.choice(('utf-8', 'iso8859-1'))
 		yield ('form', cs, tuple(pairs))
